@@ -821,9 +821,12 @@ pub fn check_conc(case: &ConcCase, run: &ConcRun, property: &str) -> Check {
         first.extend(all.iter().copied().filter(|name| *name != property && *name != "progress"));
         first
     };
+    // every checker runs: a failure that concerns the property under check is reported even if an oracle of another
+    // property fails as well (a broken invariant usually has several symptoms; the first one must not mask the others)
+    let mut first_other: Option<Failure> = None;
     for name in ordered {
-        match name {
-            "progress" => check_progress(history)?,
+        if name == "progress" { check_progress(history)?; continue; }
+        let outcome: Check = (|| { match name {
             "C13" => check_c13(history)?,
             "C11" => { check_c11(history)?; if let Some(snapshot) = &run.snapshot { check_c11_final(history, snapshot)?; } }
             "C07" => check_c07(case, history)?,
@@ -836,8 +839,13 @@ pub fn check_conc(case: &ConcCase, run: &ConcRun, property: &str) -> Check {
             "index" => { if let Some(snapshot) = &run.snapshot { check_index(history, snapshot)?; } }
             "C16" => { if let Some(snapshot) = &run.snapshot { check_c16(history, snapshot)?; } }
             _ => {}
+        } Ok(()) })();
+        if let Err(failure) = outcome {
+            if failure.concerns(property) || property.is_empty() || property == "any" { return Err(failure); }
+            if first_other.is_none() { first_other = Some(failure); }
         }
     }
+    if let Some(failure) = first_other { return Err(failure); }
     Ok(())
 }
 
